@@ -377,13 +377,20 @@ class JakesSampleGenerator(FadingSampleGenerator):
         new_shape : None | int | tuple[int]
             The shape of the generated channel.
         """
+        old_shape = self._shape
+
         # Call the base class property setter
         FadingSampleGenerator.shape.fset(self, new_shape)  # type: ignore
 
         # Since phi and psi depend on the shape we need to update
         # them. Note that `_set_phi_and_psi_according_to_shape` will use
         # the new_shape of self._shape
-        self._set_phi_and_psi_according_to_shape()
+        try:
+            self._set_phi_and_psi_according_to_shape()
+        except Exception:
+            # The new shape is not valid: the generator stays as it was
+            self._shape = old_shape
+            raise
 
     @property
     def L(self) -> int:
